@@ -209,7 +209,7 @@ class ShiftEval:
             (a, la), (b, lb) = self.ev(e.left), self.ev(e.right)
             if isinstance(e.op, ast.Add):
                 ln = la + lb if la and lb else None
-                if ln is not None and ln.a == 1.0 and ln.b != 0:
+                if ln is not None and ln.a == 1.0 and ln.b != 0 and self.shift_form is None:
                     self.shift_form = ln        # column +/- centre +/- const: the applied shift
                 return a + b, ln
             if isinstance(e.op, ast.Sub):
@@ -220,7 +220,7 @@ class ShiftEval:
                     self.premod.append(la)
                     return a.frac(), None
                 ln = la + lb.scale(-1) if la and lb else None
-                if ln is not None and ln.a == 1.0 and ln.b != 0:
+                if ln is not None and ln.a == 1.0 and ln.b != 0 and self.shift_form is None:
                     self.shift_form = ln
                 return a - b, ln
             if isinstance(e.op, ast.Mult):
